@@ -12,6 +12,7 @@ Families
 from __future__ import annotations
 
 import itertools
+import os
 from fractions import Fraction
 
 import torch
@@ -30,6 +31,7 @@ def family(fn):
 
 
 DT = {"float32": torch.float32, "float64": torch.float64}
+USER_SUBCLASS_WORLDS = os.environ.get("VERIF_USER_SUBCLASS") == "1"
 
 
 def _enumerate(H, T, As, Au, Ap):
@@ -591,7 +593,10 @@ def run(ctx):
             b6["rounds"] = [0]
             b6["pnl"] = False
             ctx.run("hedger_pl", b6)
-        if T == 3 and dk == "european" and mv in ("linear", "linear_prev", "bs") and hv in ("default", "stock+listed", "stock+stock2"):
+        # user subclass overriding the public compute_hedge: outside the property's quantifier (built-in
+        # classes); a refactoring that routes compute_pl through a private helper would be flagged.  Off by
+        # default, kept as an optional diagnostic (DESIGN section 12).
+        if USER_SUBCLASS_WORLDS and T == 3 and dk == "european" and mv in ("linear", "linear_prev", "bs") and hv in ("default", "stock+listed", "stock+stock2"):
             b8 = dict(block)
             b8["subclass"] = True
             b8["rounds"] = [0, 1]
